@@ -322,7 +322,8 @@ static cfg_opt_t *cfg_getopt_secidx(cfg_t *cfg, const char *name,
 		if (index)
 			*index = i;
 
-		sec = i >= 0 ? cfg_opt_getnsec(opt, i) : NULL;
+		/* compare as long: the accessor's index is an unsigned int */
+		sec = (i >= 0 && (unsigned long)i < cfg_opt_size(opt)) ? cfg_opt_getnsec(opt, (unsigned int)i) : NULL;
 		if (!sec && !is_set(CFGF_IGNORE_UNKNOWN, cfg->flags)) {
 			if (opt && !is_set(CFGF_MULTI, opt->flags))
 				cfg_error(cfg, _("no such option '%s'"), secname);
